@@ -40,7 +40,8 @@ IntOutcome(v) == IF Fits64(v) THEN "value" ELSE "reject"
 (* <<-2>> = escape the reference does not mention (not judged)                                         *)
 Decode(p) ==
   CASE p = "a" -> <<97>> [] p = "b" -> <<98>> [] p = "Z" -> <<90>> [] p = " " -> <<32>> [] p = "#" -> <<35>>
-    [] p = "'" -> <<39>> [] p = "?" -> <<63>> [] p = "0" -> <<48>>
+    [] p = "'" -> <<39>> [] p = "?" -> <<63>> [] p = "0" -> <<48>> [] p = "{" -> <<123>> [] p = "}" -> <<125>>
+    [] p = "#{1}" -> <<49>>                \* an interpolation of the literal 1: the string is an embedded string
     [] p = "\\n" -> <<10>> [] p = "\\t" -> <<9>> [] p = "\\\\" -> <<92>> [] p = "\\\"" -> <<34>>
     [] p \in {"\\d", "\\q", "\\0", "\\xz", "\\ ", "\\8", "\\U1"} -> <<-1>>
     [] p \in {"\\a", "\\r", "\\x41", "\\u00e9", "\\101", "\\'"} -> <<-2>>
@@ -51,9 +52,12 @@ RawChars(p) ==
     [] p = "\\ " -> <<92, 32>> [] p = "\\8" -> <<92, 56>> [] p = "\\U1" -> <<92, 85, 49>>
     [] p = "\\a" -> <<92, 97>> [] p = "\\r" -> <<92, 114>> [] p = "\\x41" -> <<92, 120, 52, 49>>
     [] p = "\\u00e9" -> <<92, 117, 48, 48, 101, 57>> [] p = "\\101" -> <<92, 49, 48, 49>> [] p = "\\'" -> <<92, 39>>
+    [] p = "#{1}" -> <<35, 123, 49, 125>>
     [] OTHER -> Decode(p)
 RECURSIVE Concat(_, _)
 Concat(ps, raw) == IF ps = <<>> THEN <<>> ELSE (IF raw THEN RawChars(Head(ps)) ELSE Decode(Head(ps))) \o Concat(Tail(ps), raw)
+(* `#` directly followed by `{` opens an interpolation: such a piece sequence is not the string its pieces spell *)
+OpensInterpolation(ps) == \E k \in 1..(Len(ps) - 1) : ps[k] = "#" /\ ps[k + 1] = "{"
 StrOutcome(ps) == LET cs == Concat(ps, FALSE) IN
                   IF \E k \in 1..Len(cs) : cs[k] = -1 THEN "reject"
                   ELSE IF \E k \in 1..Len(cs) : cs[k] = -2 THEN "undetermined" ELSE "value"
